@@ -35,6 +35,7 @@ import (
 	"fmt"
 	"math"
 	"strconv"
+	"strings"
 
 	"github.com/XiaoMi/Gaea/mysql"
 	"github.com/XiaoMi/Gaea/util"
@@ -80,10 +81,17 @@ func CalcParams(sql string) (count int, offsets []int, sqlItems []string, err er
 	return
 }
 
-func escapeSQL(sql string) string {
+// escapeSQL escapes a value for use inside a single-quoted string literal. With
+// noBackslashEscapes (sql_mode NO_BACKSLASH_ESCAPES) the backend does not treat a backslash
+// as an escape character: the only escape is a doubled quote and backslashes stay as they are.
+func escapeSQL(sql string, noBackslashEscapes bool) string {
 	t := make([]byte, 0, len(sql))
 	for _, elem := range []byte(sql) {
-		if elem == '\\' || elem == '\'' {
+		if noBackslashEscapes {
+			if elem == '\'' {
+				t = append(t, '\'')
+			}
+		} else if elem == '\\' || elem == '\'' {
 			t = append(t, '\\')
 		}
 		t = append(t, elem)
@@ -118,6 +126,12 @@ func (s *Stmt) GetParamTypes() []byte {
 
 // GetRewriteSQL get rewrite sql
 func (s *Stmt) GetRewriteSQL() (string, error) {
+	return s.getRewriteSQL(false)
+}
+
+// getRewriteSQL builds the statement text; noBackslashEscapes tells how the backend session
+// parses string literals (sql_mode NO_BACKSLASH_ESCAPES).
+func (s *Stmt) getRewriteSQL(noBackslashEscapes bool) (string, error) {
 	var buffer bytes.Buffer
 	index := 0
 
@@ -125,7 +139,7 @@ func (s *Stmt) GetRewriteSQL() (string, error) {
 		if s.sqlItems[i] == "?" {
 			quote, tmp := util.ItoString(s.args[index])
 			index++
-			tmp = escapeSQL(tmp)
+			tmp = escapeSQL(tmp, noBackslashEscapes)
 			if quote {
 				tmp = "'" + tmp + "'"
 			}
@@ -202,7 +216,7 @@ func (se *SessionExecutor) handleStmtExecute(reqCtx *util.RequestContext, data [
 			return nil, err
 		}
 
-		executeSQL, err = s.GetRewriteSQL()
+		executeSQL, err = s.getRewriteSQL(se.noBackslashEscapes())
 		if err != nil {
 			return nil, err
 		}
@@ -211,6 +225,17 @@ func (se *SessionExecutor) handleStmtExecute(reqCtx *util.RequestContext, data [
 	}
 	// execute sql using ComQuery
 	return se.handleQuery(reqCtx, executeSQL)
+}
+
+// noBackslashEscapes reports whether the session has set an sql_mode containing
+// NO_BACKSLASH_ESCAPES (the mode is applied to the backend connection before the statement).
+func (se *SessionExecutor) noBackslashEscapes() bool {
+	v, ok := se.sessionVariables.GetAll()[mysql.SQLModeStr]
+	if !ok {
+		return false
+	}
+	mode, _ := v.Get().(string)
+	return strings.Contains(strings.ToUpper(mode), "NO_BACKSLASH_ESCAPES")
 }
 
 // long data and generic args are all in s.args
